@@ -210,6 +210,11 @@ impl<'a, 'b, 'c> AdtDeserializer<'a, 'b, 'c> {
         fp
     }
 
+    /// The constructor index stored in the input
+    pub fn read_constructor_idx(&mut self) -> Result<u32> {
+        self.read_or_get_constructor_idx()
+    }
+
     fn read_or_get_constructor_idx(&mut self) -> Result<u32> {
         match self.read_constructor_idx {
             Some(idx) => Ok(idx),
